@@ -230,7 +230,7 @@ Fixpoint sx (fuel : nat) (e : expr) (m : mstate) {struct fuel} : sres :=
       end
   | EForeach idx ident v body =>
       then_ (sx f v m) (fun m1 =>
-        let e1 := env_push (menv m1) in
+        let e1 := env_push (menv m1) (lenN (stk m1)) in
         match stk m1 with
         | [] => XErr EInternal (set_menv m1 e1)
         | it :: s =>
@@ -292,7 +292,7 @@ with sforeach (fuel : nat) (idx ident : str) (it : value) (off : N) (body : list
           let e2 := match idx with [] => e1 | _ => env_declare e1 idx k end in
           then_ (sblock f body (mkM (VIter it (off + 1) :: stk m) e2 (trace m) (polls m))) (fun m1 =>
             (* back at the head: the iterator must be on top again *)
-            match stk m1 with
+            match drop_residue (menv m1) (stk m1) with
             | VIter it' off' :: s' => sforeach f idx ident it' off' body (set_stk m1 s')
             | other :: s' => if iterable other then XErr ENeedOracle (set_stk m1 s') else XErr EScript (set_stk m1 s')
             | [] => XErr EInternal m1
